@@ -71,7 +71,7 @@ Definition dec_input (x : sx) : option cinput :=
   end.
 
 Definition strs_sx (l : list str) : sx := SL (map SS l).
-Definition entry_sx (e : entry) : sx := SL [SZ (fst e); SS (snd e)].
+Definition entry_sx (e : Z * str) : sx := SL [SZ (fst e); SS (snd e)].
 
 Fixpoint logger_run (so lo : oracle) (st : state) (ps : list str) : list (option werr) * state :=
   match ps with
@@ -88,7 +88,7 @@ Definition run_typed (i : cinput) : sx :=
       let lo := mk_oracle lf in
       let '(obs, st) := run_obs cfg so lo st0 ops in
       SL [SL (map (fun o => match o with (r, sc, lc) => SL [result_sx r; strs_sx sc; strs_sx lc] end) obs);
-          SL (map entry_sx (s_queue st));
+          SL (map entry_sx (q_items (s_queue st)));
           SS (stream so 0 (s_sock st))]
   | ILogger sf lf ps =>
       let so := mk_oracle sf in
